@@ -159,6 +159,25 @@ func extractReactor() {
 			}
 		}
 	}
+	// the same guard written the other way round: `if _, loaded := …LoadAndDelete(…); !loaded { return <error> }`, the release after it
+	if fin != nil && fin.Body != nil && !releaseGuarded {
+		guarded := false
+		for _, st := range fin.Body.List {
+			if ifs, ok := st.(*ast.IfStmt); ok && strings.Contains(src(ifs.Init), "LoadAndDelete") && nospace(ifs.Cond) == "!loaded" && len(ifs.Body.List) > 0 && ifs.Else == nil {
+				if _, ok := ifs.Body.List[len(ifs.Body.List)-1].(*ast.ReturnStmt); ok {
+					guarded = true
+					continue
+				}
+			}
+			if guarded {
+				for _, op := range chanOps(st) {
+					if op.Kind == "recv" && strings.Contains(op.Text, "tokenPool") {
+						releaseGuarded = true
+					}
+				}
+			}
+		}
+	}
 	s.strs("finishSeq", fseq, fin != nil)
 	s.boolean("finishReleaseOnlyIfLoaded", releaseGuarded)
 
